@@ -26,7 +26,7 @@ meta = {
         "log": conf,
     },
     "checks_run_against_it": trials,
-    "detected": any(t["result"] and t["result"][0].startswith("VIOLATION") for t in trials),
+    "detected": any(any(l.startswith("VIOLATION") for l in t["result"]) for t in trials),
 }
 json.dump(meta, open(os.path.join(d, "meta.json"), "w"), indent=1)
 print(sid, "detected" if meta["detected"] else "NOT detected", [t["check"] for t in trials])
